@@ -167,17 +167,21 @@ def do_move(c, model, ci, v, acc, wit):
     new = model[:ci] + (v,) + model[ci + 1:]
     CALLS["class:%s:%s" % (tag, cls)] += 1
     if not check_conn(c, new, acc, "connector:%s:%s" % (tag, cls), wit):
-        restore(c.xfrm, before)  # resynchronise: redo the move in the harness's own terms
-        bx, by, ex, ey = new
-        restore(c.xfrm, (str(min(bx, ex)), str(min(by, ey)), str(abs(ex - bx)), str(abs(ey - by)), "1" if bx > ex else None, "1" if by > ey else None))
+        resync(c, new)
     return new, cls
+
+
+def resync(c, model):
+    """after a violation: put the connector into the model's state in the harness's own terms, so one defect is reported once"""
+    bx, by, ex, ey = model
+    restore(c.xfrm, (str(min(bx, ex)), str(min(by, ey)), str(abs(ex - bx)), str(abs(ey - by)), "1" if bx > ex else None, "1" if by > ey else None))
 
 
 def conn_exhaustive(unit, acc):
     prs, slide = new_slide()
     grid = [g * unit["scale"] for g in GRID]
     maxdepth = unit["depth"]
-    path = []
+    path, e0 = [], acc.evaluations
 
     def walk(c, create, model, crossed):
         for ci in range(4):
@@ -197,12 +201,13 @@ def conn_exhaustive(unit, acc):
         if i % unit["of"] != unit["shard"]:
             continue
         c = Conn(slide, "STRAIGHT", pts)
-        check_conn(c, pts, acc, "connector-create:STRAIGHT", lambda: {"part": "connector", "type": "STRAIGHT", "create": list(pts), "moves": []})
+        if not check_conn(c, pts, acc, "connector-create:STRAIGHT", lambda: {"part": "connector", "type": "STRAIGHT", "create": list(pts), "moves": []}):
+            resync(c, pts)
         walk(c, pts, pts, False)
         c.remove()
         if i == unit["shard"]:
             acc.samples.append({"connector": list(pts), "then": "all move sequences of length <= %d over %s" % (maxdepth, grid)})
-    acc.classes["connector-sequence(exhaustive)"] = acc.classes.get("connector-sequence(exhaustive)", 0) + CALLS["get"]
+    acc.classes["connector-sequence(exhaustive)"] = acc.classes.get("connector-sequence(exhaustive)", 0) + acc.evaluations - e0
 
 
 def conn_types(acc):
@@ -252,7 +257,8 @@ def conn_random(unit, acc):
         wit = lambda: {"part": "connector", "type": t, "create": list(pts), "moves": [list(m) for m in moves]}  # noqa
         c = Conn(slide, t, pts)
         model = pts
-        check_conn(c, model, acc, "connector-create:" + t, wit)
+        if not check_conn(c, model, acc, "connector-create:" + t, wit):
+            resync(c, model)
         crossings = 0
         for _ in range(50):
             ci, v = r.randrange(4), rand_value(r, model)
@@ -463,7 +469,7 @@ class GroupBuild:
             api = (int(pr.left), int(pr.top), int(pr.width), int(pr.height))
             api_want = bbox([(int(m.left), int(m.top), int(m.width), int(m.height)) for m in pr.shapes])
             key = "group-extents-stale:freeform" if kind == "freeform" else "group-extents:%s%s" % (kind, ":ancestor" if level else "")
-            where = "group at nesting level -%d above the added %s" % (level, kind)
+            where = "group %d level(s) above the %s just added" % (level + (el.tag != P + "grpSp"), kind)
             if got != want or api != api_want:
                 acc.violation(key, "%s: a:off/a:ext %s, left/top/width/height %s; bounding box of its %d members is %s (XML) / %s (API)" % (where, got, api, len(members(g)), want, api_want), self.witness())
             if ch != want and ch != got:  # (equal to a wrong a:off/a:ext: already reported above)
@@ -518,7 +524,7 @@ def group_step(b, op, step, tag):
         return
     n = b.check(el, kind) if (op["into"] >= 0 or kind == "group-with-shapes") else 0
     neg = any(v < 0 for v in op.get("xywh", ()))
-    sample = {"build": tag, "step": step, "op": op, "ancestor groups checked": n} if n >= 3 and tag[1:] == [0] else None
+    sample = {"build": tag, "step": step, "op": op, "ancestor groups checked": n} if n >= 3 and tag[1:] == [0] and step > 30 else None
     b.acc.case(key=env.khash([tag, step, op]), nontrivial=n >= 2 or bool(n and neg), cls="group-add:%s:depth%d" % (kind, n), sample=sample)
 
 
